@@ -1,6 +1,6 @@
 CONSTANTS
   MaxSteps = 2
-  Shape = "full"
+  Shape = "small"
   Quirks = FALSE
 SPECIFICATION Spec
 INVARIANT TypeOK
